@@ -9,6 +9,8 @@
   Only property theorems live here.
 -/
 import Nq.Lemmas.CleanL
+import Nq.Lemmas.CleanIOL
+import Nq.Lemmas.SpawnOOML
 import Nq.Lemmas.SpawnL
 import Nq.Lemmas.SpawnStreamL
 import Nq.Lemmas.SendTruncL
@@ -581,5 +583,158 @@ example : Nq.Lemmas.SpawnL.countCmds .delnum [3, 49, 0, 0, 64, 0, 4, 50, 0, 115]
 example : okPath [49, 47, 50, 52] = true ∧ okPath [47, 49] = false ∧ okPath [49, 47, 46] = false ∧ okPath [] = false := by decide
 
 end examples
+
+/-! ## qmail-clean with read and write faults (session 4): no request is acted on twice or half -/
+section cleanio
+open Nq.Clean Nq.CleanIO Nq.Lemmas.CleanL Nq.Lemmas.CleanIOL
+
+/-- **The whole run under every I/O behaviour satisfies the oracle `cleanIOOK`**: whatever each `read()`
+of the request pipe returns (any short read, EINTR, an error, end of file), whatever `unlink` returns,
+whatever `pid/` contains and whatever each `write()` of an answer returns (delivered, EINTR, error):
+an interrupted write is retried at once with the same byte; exit code 0 ⇒ no write failed for good and
+every complete request that arrived got exactly one answer, after its own unlinks only (`cleanOK`);
+exit code 100 ⇒ the last event is the failed write, the request whose answer was lost was handled
+completely and once, every earlier one was answered, no later one was touched (`cleanCut`). -/
+theorem C18_clean_io_stream (rds : List Rd) (plan : List Nat) (scans : List Scan) (wplan : List Nat) :
+    cleanIOOK (splitReqs [] (arrived rds)) scans (runT rds plan scans wplan) (runCode rds plan scans wplan) = true :=
+  run_cleanIOOK rds plan scans wplan
+
+/-- **Nothing twice, nothing after a failed write**: the events that took effect are the fault-free run
+of the requests that arrived (exit 0, and then no write failed), or (exit 100) exactly its events before
+some status byte `b`, whose write is the failed last event — so the files unlinked and the answers
+delivered are always a prefix of those of the fault-free run. -/
+theorem C18_clean_io_once (rds : List Rd) (plan : List Nat) (scans : List Scan) (wplan : List Nat) :
+    ((runCode rds plan scans wplan = 0 ∧ erase (runT rds plan scans wplan) = run (arrived rds) plan scans ∧
+        ∀ c, IOEv.wfail c ∉ runT rds plan scans wplan) ∨
+     (runCode rds plan scans wplan = 100 ∧ ∃ pre b post tr, run (arrived rds) plan scans = pre ++ Ev.status b :: post ∧
+        runT rds plan scans wplan = tr ++ [IOEv.wfail b] ∧ erase tr = pre)) ∧
+    paths (erase (runT rds plan scans wplan)) <+: paths (run (arrived rds) plan scans) ∧
+    statuses (erase (runT rds plan scans wplan)) <+: statuses (run (arrived rds) plan scans) := by
+  unfold runCode runT
+  cases ha : emitAlive (run (arrived rds) plan scans) wplan with
+  | true =>
+    obtain ⟨h1, h2⟩ := emit_alive _ _ ha
+    refine ⟨.inl ⟨by simp, h1, h2⟩, ?_, ?_⟩ <;> rw [h1] <;> exact List.prefix_refl _
+  | false =>
+    obtain ⟨pre, b, post, tr, h1, h2, h3⟩ := emit_dead _ _ ha
+    refine ⟨.inr ⟨by simp, pre, b, post, tr, h1, h2, h3⟩, ?_, ?_⟩
+    · rw [h2, erase_append, h1, paths_append, h3]; simp only [erase, paths, List.append_nil]; rw [paths_append]; exact List.prefix_append _ _
+    · rw [h2, erase_append, h1, statuses_append, h3]; simp only [erase, statuses, List.append_nil]; rw [statuses_append]; exact List.prefix_append _ _
+
+/-- **Reads**: what reaches the request loop does not depend on EINTR or on how `read()` cuts the
+stream; nothing after a read error or end of file is seen. -/
+theorem C18_clean_io_reads (r1 r2 : List Rd) :
+    arrived (r1 ++ .eintr :: r2) = arrived (r1 ++ r2) ∧
+    arrived (r1 ++ .err :: r2) = arrived r1 ∧
+    arrived (r1 ++ .data [] :: r2) = arrived r1 ∧
+    ∀ a b : Bytes, a ≠ [] → b ≠ [] → arrived (r1 ++ .data (a ++ b) :: r2) = arrived (r1 ++ .data a :: .data b :: r2) :=
+  ⟨arrived_eintr r1 r2, arrived_err r1 r2, arrived_eof r1 r2, fun a b ha hb => arrived_chunk r1 r2 a b ha hb⟩
+
+/-- **No request is acted on half**: bytes without a NUL at the end of what arrived (a request cut by end
+of file — or, with `C18_clean_io_reads`, by a read error) change nothing: same trace, same exit code as
+if they had never been sent. -/
+theorem C18_clean_io_half (r1 : List Rd) (tail : Bytes) (h : ∀ c ∈ tail, c ≠ 0)
+    (plan : List Nat) (scans : List Scan) (wplan : List Nat) :
+    runT (r1 ++ [.data tail]) plan scans wplan = runT r1 plan scans wplan ∧
+    runCode (r1 ++ [.data tail]) plan scans wplan = runCode r1 plan scans wplan := by
+  have hs : splitReqs [] (arrived (r1 ++ [.data tail])) = splitReqs [] (arrived r1) := by
+    rcases arrived_append r1 [.data tail] with e | e
+    · rw [e]
+    · rw [e]
+      by_cases ht : tail = []
+      · simp [arrived, ht]
+      · simp only [arrived, ht, if_false, List.append_nil]
+        exact splitReqs_tail _ _ _ h
+  unfold runT runCode Clean.run
+  rw [hs]
+  exact ⟨rfl, rfl⟩
+
+/-- complement of the hypothesis of `C18_clean_io_half`: a tail that does contain a NUL completes a
+request, which is then answered (here: the smallest case) -/
+example : runT [.data [120], .data [0]] [] [] [] = [.ev .cleanup, .ev (.status 120)] := by decide
+
+/-- "foop/1" | EINTR | "2\0todo/7\0" | read error | (never seen: "todo/9\0"), the first answer interrupted
+once, the second failing: both files of 12 removed, '+' delivered at the second attempt, the files of 7
+removed, its answer lost, exit 100, request 9 untouched -/
+example : runT [.data [102, 111, 111, 112, 47, 49], .eintr, .data [50, 0, 116, 111, 100, 111, 47, 55, 0], .err,
+      .data [116, 111, 100, 111, 47, 57, 0]] [] [] [1, 0, 2] =
+    [.ev .cleanup, .ev (.unlink [105, 110, 116, 100, 47, 49, 50]), .ev (.unlink [109, 101, 115, 115, 47, 49, 50, 47, 49, 50]),
+     .wintr 43, .ev (.status 43), .ev (.unlink [105, 110, 116, 100, 47, 55]), .ev (.unlink [116, 111, 100, 111, 47, 55]), .wfail 43] ∧
+    runCode [.data [102, 111, 111, 112, 47, 49], .eintr, .data [50, 0, 116, 111, 100, 111, 47, 55, 0], .err,
+      .data [116, 111, 100, 111, 47, 57, 0]] [] [] [1, 0, 2] = 100 := by decide
+/-- the oracle rejects: an unlink after the failed write, a second answer for one request, a retry with
+another byte, exit code 0 after a failed write -/
+example : cleanIOOK [[120, 0], [116, 111, 100, 111, 47, 55, 0]] [] [.ev (.status 120), .wfail 43, .ev (.unlink [105, 110, 116, 100, 47, 55])] 100 = false ∧
+    cleanIOOK [[120, 0]] [] [.ev (.status 120), .ev (.status 120)] 0 = false ∧
+    cleanIOOK [[120, 0]] [] [.wintr 43, .ev (.status 120)] 0 = false ∧
+    cleanIOOK [[120, 0]] [] [.wfail 120] 0 = false ∧
+    cleanIOOK [[120, 0]] [] [.wfail 120] 100 = true := by decide
+
+end cleanio
+
+/-! ## spawn.c with failing allocations while a command is read (`flagabort`, session 4) -/
+section spawnoom
+open Nq.Spawn Nq.SpawnOOM Nq.Lemmas.SpawnOOML Nq.Gen.SpawnTexts
+
+/-- **An aborted command never starts a delivery** (per byte): when the `stralloc_append` for this byte fails or
+an earlier one of the same command did, the byte opens nothing, spawns nothing, leaves the slot table, the
+wait statuses, the delivery number and the file-system plan untouched; the only event possible is the report
+`delnum "Zqmail-spawn out of memory. (#4.3.0)\n"`, written exactly at the NUL that ends the recipient, where the
+abort flag is cleared and the next command starts; everywhere else nothing is written and the flag stays set. -/
+theorem C18_spawn_oom_step (oom : List Nat) (s : StA) (ch : Byte) (hs : s.st.stage ≠ .delnum)
+    (h : s.abort = true ∨ oom.contains s.calls = true) :
+    (cstepA oom s ch).1.st.slots = s.st.slots ∧ (cstepA oom s ch).1.st.plan = s.st.plan ∧
+    (cstepA oom s ch).1.st.dead = s.st.dead ∧ (cstepA oom s ch).1.st.delnum = s.st.delnum ∧
+    (cstepA oom s ch).1.calls = s.calls + 1 ∧
+    (if s.st.stage = .recip ∧ ch = 0
+     then (cstepA oom s ch).2 = [.report s.st.delnum E_NOMEM0] ∧ (cstepA oom s ch).1.abort = false ∧
+          (cstepA oom s ch).1.st.stage = .delnum
+     else (cstepA oom s ch).2 = [] ∧ (cstepA oom s ch).1.abort = true ∧ (cstepA oom s ch).1.st.stage ≠ .delnum) := by
+  have hc : (s.abort || oom.contains s.calls) = true := by
+    rcases h with h | h
+    · simp [h]
+    · rw [h]; simp
+  unfold cstepA
+  cases hst : s.st.stage <;> simp only [hst] at hs ⊢
+  · exact absurd rfl hs
+  all_goals (simp only [hc, if_true]; by_cases h0 : ch = 0 <;> simp [h0, hst])
+
+/-- **… and is reported exactly once** (over the rest of the command, any length): once the flag is set, the
+remaining bytes of the command — the rest of the message id, the sender and the recipient, whatever they are and
+whichever further allocations fail — cause exactly one event, the out-of-memory report carrying the command's
+delivery number; no slot, wait status or plan entry changes, and the program is back at the start of a command
+with the flag cleared. -/
+theorem C18_spawn_oom_cmd (oom : List Nat) (s : StA) (m sd rc : Bytes) (ha : s.abort = true)
+    (hm : ∀ c ∈ m, c ≠ 0) (hsd : ∀ c ∈ sd, c ≠ 0) (hr : ∀ c ∈ rc, c ≠ 0) :
+    (s.st.stage = .messid → cfeedA oom s (m ++ 0 :: (sd ++ 0 :: (rc ++ [0]))) =
+      ({ st := { s.st with stage := .delnum }, abort := false, calls := s.calls + m.length + 1 + sd.length + 1 + rc.length + 1 },
+       [.report s.st.delnum E_NOMEM0])) ∧
+    (s.st.stage = .sender → cfeedA oom s (sd ++ 0 :: (rc ++ [0])) =
+      ({ st := { s.st with stage := .delnum }, abort := false, calls := s.calls + sd.length + 1 + rc.length + 1 },
+       [.report s.st.delnum E_NOMEM0])) ∧
+    (s.st.stage = .recip → cfeedA oom s (rc ++ [0]) =
+      ({ st := { s.st with stage := .delnum }, abort := false, calls := s.calls + rc.length + 1 },
+       [.report s.st.delnum E_NOMEM0])) :=
+  ⟨fun h => abort_messid oom s m sd rc h ha hm hsd hr, fun h => abort_sender oom s sd rc h ha hsd hr,
+   fun h => abort_recip oom s rc h ha hr⟩
+
+/-- **Complement**: while none of the `stralloc_append` calls made fails, `getcmd()` is exactly the fault-free
+`Spawn.cfeed` (to which `C18_spawn_stream`, `C18_spawn_one` … apply) and the flag stays clear. -/
+theorem C18_spawn_oom_none (oom : List Nat) (bs : Bytes) (s : StA) (ha : s.abort = false)
+    (hn : ∀ n, s.calls ≤ n → n < s.calls + bs.length → oom.contains n = false) :
+    (cfeedA oom s bs).1.st = (cfeed s.st bs).1 ∧ (cfeedA oom s bs).2 = (cfeed s.st bs).2 ∧
+    (cfeedA oom s bs).1.abort = false :=
+  cfeedA_ok oom bs s ha hn
+
+/-- command 05 "1" NUL "" NUL "@" NUL whose third allocation (the sender's NUL) fails: one report, no open -/
+example : (cfeedA [2] {} [5, 49, 0, 0, 64, 0]).2 = [.report 5 E_NOMEM0] := by decide
+/-- the same command without a failing allocation is opened and spawned -/
+example : (cfeedA [7] {} [5, 49, 0, 0, 64, 0]).2 = [.openRead [49], .spawnCall 5 [] [64] 0] := by decide
+/-- the oracle rejects an open for an aborted command and a missing out-of-memory report -/
+example : oomOK [2] [⟨5, [49], [], [64]⟩] [] [.openRead [49], .spawnCall 5 [] [64] 0] = false ∧
+    oomOK [2] [⟨5, [49], [], [64]⟩] [] [.report 5 E_TOOBIG] = false ∧
+    oomOK [2] [⟨5, [49], [], [64]⟩] [] [.report 5 E_NOMEM0] = true := by decide
+
+end spawnoom
 
 end Nq.Props.C18
